@@ -81,9 +81,11 @@ impl Typed for C19 {
             delay_max_ms: *rng.pick(&[0u64, 1, 20]),
             send_err_pm: *rng.pick(&[0u32, 0, 50, 200, 400]),
             send_pending_pm: *rng.pick(&[0u32, 0, 50, 200]),
+            stuck_b: rng.chance(1, 4),
         };
         let dials = (0..rng.range(1, 3))
-            .map(|_| Dial { server: rng.range(0, 1) as u8, planes: rng.range(1, 3) as u8, bytes: *rng.pick(&[1u32, 100, 5_000, 60_000]), gap_ms: rng.range(0, 200) })
+            // with plane B down every dial must be offered plane A, otherwise it cannot complete
+            .map(|_| Dial { server: rng.range(0, 1) as u8, planes: if net.stuck_b { *rng.pick(&[1u8, 3, 3]) } else { rng.range(1, 3) as u8 }, bytes: *rng.pick(&[1u32, 100, 5_000, 60_000]), gap_ms: rng.range(0, 200) })
             .collect();
         Case { net, dials, concurrent: rng.coin(), faults_stop_ms: rng.edgy(100, 3000, &[100, 1000]), seed: rng.next_u64() }
     }
@@ -218,6 +220,7 @@ impl Typed for C19 {
             let res = results.lock().unwrap().clone();
             let errs = calls.iter().filter(|c| c.4 == "io-error").count() as u64;
             let pend = calls.iter().filter(|c| c.4 == "would-block").count() as u64;
+            ctx.add("fault.sender_stuck_plane", calls.iter().filter(|c| c.4 == "stuck").count() as u64);
             ctx.add("fault.sender_io_error", errs);
             ctx.add("fault.sender_would_block", pend);
             ctx.add("fault.packets_dropped", net.log().iter().filter(|p| p.fate == "dropped").count() as u64);
